@@ -194,6 +194,30 @@ func (r *Rec) Fail(t TB, assertion, context string, c interface{}, format string
 	t.Fatalf("[%s ctx=%s] %s", assertion, context, f.Message)
 }
 
+// FailSoft is Fail for checks that examine many independent items in one case
+// (e.g. every differing store key of a genesis round trip): a failure listed in
+// known_findings.json is recorded and the case CONTINUES (returns true); any
+// other failure is fatal as with Fail.
+func (r *Rec) FailSoft(t TB, assertion, context string, c interface{}, format string, args ...interface{}) bool {
+	t.Helper()
+	if id, ok := MatchKnown(r.Property, assertion, context); ok {
+		r.mu.Lock()
+		r.classes["known:"+id]++
+		if r.knownSeen == nil {
+			r.knownSeen = map[string]bool{}
+		}
+		first := !r.knownSeen[id]
+		r.knownSeen[id] = true
+		r.mu.Unlock()
+		if first {
+			r.Known(assertion, context, fmt.Sprintf(format, args...))
+		}
+		return true
+	}
+	r.Fail(t, assertion, context, c, format, args...)
+	return false
+}
+
 // Known records a failure observed by a witness of a known finding.
 func (r *Rec) Known(assertion, context, msg string) {
 	r.mu.Lock()
